@@ -1,12 +1,13 @@
 #!/bin/bash
-# usage: seedcheck.sh <ID> <pkgdir-of-demo> <demo -run regex> [extra go test flags e.g. "-tags verif"]
+# usage: [SEEDROOT=/tmp/seed2 SUFFIX=b] seedcheck.sh <ID> <pkgdir-of-demo> <demo -run regex> [extra go test flags e.g. "-tags verif"]
 # Confirms a seeded change delivered in /tmp/seed/<ID>/SEED (patch.diff + demo test), copies it to
 # /verif/seeded/<ID>/, runs the property's checks against it in /repo and restores /repo.
 set -u
 ID=$1; PKG=$2; RUN=$3; EXTRA=${4:-}
 export GOFLAGS=-mod=mod GOPROXY=off GOSUMDB=off GOTOOLCHAIN=local
-W=/tmp/seed/$ID
-OUT=/verif/seeded/$ID
+ROOT=${SEEDROOT:-/tmp/seed}
+W=$ROOT/$ID
+OUT=/verif/seeded/$ID${SUFFIX:-}
 mkdir -p $OUT
 cp $W/SEED/patch.diff $OUT/patch.diff
 for f in $W/SEED/*; do case "$f" in *patch.diff) ;; *) cp "$f" $OUT/ ;; esac; done
@@ -24,7 +25,7 @@ tail -2 $OUT/demo_without.log
 git apply $OUT/patch.diff
 echo "== existing suite with change (stable baseline)"
 # move the demo aside so that it does not count as an existing test
-mkdir -p /tmp/seed/aside-$ID; for f in $(git status --porcelain | grep '^??' | awk '{print $2}' | grep '_test.go$'); do mv $f /tmp/seed/aside-$ID/; done
+mkdir -p $ROOT/aside-$ID; for f in $(git status --porcelain | grep '^??' | awk '{print $2}' | grep '_test.go$'); do mv $f $ROOT/aside-$ID/; done
 go test -json -vet=off -count=1 -timeout 20m ./... 2>/dev/null | python3 -c "
 import json,sys
 passed=set()
@@ -37,7 +38,7 @@ missing=sorted(base-passed)
 print('suite with change: passed',len(passed),'missing from baseline',len(missing)); print(missing[:10])
 open('$OUT/suite_with.txt','w').write('passed %d missing %d %s\n'%(len(passed),len(missing),missing[:10]))
 "
-for f in /tmp/seed/aside-$ID/*; do [ -e "$f" ] && mv $f $W/$PKG/ 2>/dev/null; done
+for f in $ROOT/aside-$ID/*; do [ -e "$f" ] && mv $f $W/$PKG/ 2>/dev/null; done
 echo "== my checks against the change"
 cd /repo || exit 3
 if [ -n "$(git status --porcelain)" ]; then echo "repo dirty"; exit 3; fi
